@@ -303,16 +303,20 @@ def build_harness(name, sources, repo_sources=(), sanitize=True, extra_flags=(),
     exe = CACHE / 'exe' / f'{name}_{key}'
     exe.parent.mkdir(parents=True, exist_ok=True)
     if not exe.exists():
-        rc, out, err = sh([compiler] + flags + objs + ['-o', str(exe)] + list(libs), timeout=600)
+        tmp = exe.with_name(exe.name + f'.tmp{os.getpid()}')
+        rc, out, err = sh([compiler] + flags + objs + ['-o', str(tmp)] + list(libs), timeout=600)
         if rc != 0:
             return None, 'link: ' + (out + err)[-3000:]
-        # keep the cache small: remove older executables of the same harness
+        os.replace(tmp, exe)          # atomic: a concurrent run never sees a half-written executable
+        # keep the cache small: remove executables of the same harness that have not been used for two hours
+        # (another run, e.g. against another tree, may still be executing a recent one)
+        now = time.time()
         for old in exe.parent.glob(f'{name}_*'):
-            if old != exe:
-                try:
+            try:
+                if old != exe and now - old.stat().st_atime > 7200 and now - old.stat().st_mtime > 7200:
                     old.unlink()
-                except OSError:
-                    pass
+            except OSError:
+                pass
     return exe, None
 
 
@@ -575,6 +579,9 @@ def _run_check(P, tier, seed, replay=None):
                 corr['agree'] += 1
                 if ii != mi:
                     corr['drift'] += 1
+            elif (mp or '').startswith('unsupported'):
+                # a case outside the domain of the model: judged by the spec oracle (and the sanitizers) only
+                corr['outside_model'] = corr.get('outside_model', 0) + 1
             else:
                 corr['disagree'] += 1
                 disagreements.append((cid, c, ir, mr))
@@ -709,7 +716,7 @@ def _run_check(P, tier, seed, replay=None):
             'rule': getattr(P, 'RULE', ''),
             'samples': corr['samples'] or [{'obligation': t} for t in pr['theorems'][:3]],
             'exhaustive': corr['exhaustive'], 'scopes': corr['scopes'],
-            'correspondence': {k: corr[k] for k in ('agree', 'disagree', 'drift')},
+            'correspondence': {k: corr.get(k, 0) for k in ('agree', 'disagree', 'drift', 'outside_model')},
             'input_distribution': corr['histogram'],
             'known_findings_reproduced': sorted(known_hits.keys()),
             'notes': notes, 'extra': {k: v for k, v in extra.items() if k != 'violations'},
